@@ -241,6 +241,22 @@ func bounded(fn *ssa.Function, v ssa.Value, k int64, upper bool, at *ssa.BasicBl
 		}
 		return cst >= k
 	}
+	// the value is computed by a helper of the module (level := adjustedLevel(…)): bounded when
+	// every value the helper returns is bounded at its return
+	if call, ok := v.(*ssa.Call); ok {
+		if h := call.Call.StaticCallee(); h != nil && h.Blocks != nil && eng.InModule(h) && h.Signature.Results().Len() == 1 {
+			rets := eng.Returns(h)
+			all := len(rets) > 0
+			for _, r := range rets {
+				if !bounded(h, r.Results[0], k, upper, r.Block(), depth+1) {
+					all = false
+				}
+			}
+			if all {
+				return true
+			}
+		}
+	}
 	fact := func(w ssa.Value) func(eng.Fact) bool {
 		return func(f eng.Fact) bool {
 			op, x, y, ok := f.Cmp()
@@ -280,13 +296,12 @@ func bounded(fn *ssa.Function, v ssa.Value, k int64, upper bool, at *ssa.BasicBl
 			}
 			// fact about e established on the way to the end of pred (or on the edge pred->phi block)
 			m := eng.MustCross(fn, func(ed eng.Edge) bool {
-				f, ok := eng.EdgeFact(ed)
-				return ok && fact(e)(f)
+				return eng.AnyEdgeFact(ed, fact(e))
 			}, nil)
 			edgeOK := m[pred]
 			for si, s := range pred.Succs {
 				if s == ph.Block() {
-					if f, ok := eng.EdgeFact(eng.Edge{From: pred, Succ: si}); ok && fact(e)(f) {
+					if eng.AnyEdgeFact(eng.Edge{From: pred, Succ: si}, fact(e)) {
 						edgeOK = true
 					}
 				}
@@ -304,8 +319,7 @@ func bounded(fn *ssa.Function, v ssa.Value, k int64, upper bool, at *ssa.BasicBl
 		}
 	}
 	m := eng.MustCross(fn, func(ed eng.Edge) bool {
-		f, ok := eng.EdgeFact(ed)
-		return ok && fact(v)(f)
+		return eng.AnyEdgeFact(ed, fact(v))
 	}, nil)
 	return m[at]
 }
